@@ -179,7 +179,7 @@ def sharded_work(task):
   res, viol = [], []
   confirmed = None
   for r in P.results:
-    if r['status'] == 'sat' and r.get('kind', 'core') == 'core':
+    if r['status'] in ('sat', 'unknown') and r.get('kind', 'core') == 'core':
       if confirmed is None:
         confirmed = False
         for seed in (0, 1):
@@ -191,7 +191,7 @@ def sharded_work(task):
       if confirmed:
         r['status'] = 'violation'
         viol.append(dict(key=f"C02:sharded:{r['name'].split('|')[-1].split(' ')[1] if ' ' in r['name'].split('|')[-1] else 'leaf'}", what=confirmed['what'], replay=confirmed['replay']))
-      else:
+      elif r['status'] == 'sat':
         r['status'] = 'spurious'
         r['note'] = 'candidate counterexample did not reproduce on the real code'
     res.append(dict(r))
@@ -378,13 +378,19 @@ def work(task):
   if c['start'] > 0:
     P.reach(f'{tag}|twin: warm-up step reachable', assume, [count < c['start']])
   res, viol = [], []
+  memo = {}
   for r in P.results:
-    if r['status'] == 'sat' and r.get('kind', 'core') == 'core':
-      v = confirm(task, c, shape, r, tr, leaves)
+    if r['status'] in ('sat', 'unknown') and r.get('kind', 'core') == 'core':
+      if r['status'] == 'unknown':       # no model: one generic replay per task
+        if 'unk' not in memo:
+          memo['unk'] = confirm(task, c, shape, r, tr, leaves)
+        v = memo['unk']
+      else:
+        v = confirm(task, c, shape, r, tr, leaves)
       if v is not None:
         r['status'] = 'violation'
         viol.append(v)
-      else:
+      elif r['status'] == 'sat':
         r['status'] = 'spurious'
         r['note'] = 'candidate counterexample did not reproduce on the real code'
     res.append(dict(r))
